@@ -59,6 +59,8 @@ def correspondence(ctx):
     import corr_floateval as FE
     FE.floateval_stream(rng, 400 if thorough else 40, streams, viol, samples)
     FE.floateval_stream(rng, 100 if thorough else 20, streams, viol, samples, ds="synth")
+    import corr_randds as RD
+    RD.random_dataset_stream(rng, 10 if ctx["tier"] == "thorough" else 2, streams, viol, samples, cum=False, hp=0)
     return {"streams": streams, "violations": viol, "samples": samples}
 
 
